@@ -4,36 +4,81 @@ from vlib import Prop
 from props.c16 import hx
 from props.c02 import varint
 
-GOOD_REQ = "010d0000d1d750831af1ff518263cf"
-GOOD_RESP = "01030000d9"
-# valid QPACK, malformed message: a literal field with an upper-case name "X-A"
-BAD_HEAD = "0108000023582d410176"
-URI = "68747470733a2f2f612e622f78"
-
-
-def oversized_head(good_fields_hex, n=70):
-    """the good head plus a literal field x=<n bytes>: size 42/… + n + 33"""
-    sec = bytes.fromhex(good_fields_hex) + bytes([0x21, 0x78, n]) + b"v" * n
-    return hx([0x01] + varint(len(sec)) + list(sec))
-
+URI = "68747470733a2f2f612e622f78"     # https://a.b/x
+# what h3's own encoder writes for the heads the applications submit (all statically indexed but authority and path)
+METHODS = {"GET": 0xd1, "POST": 0xd4, "PUT": 0xd5, "DELETE": 0xd0, "HEAD": 0xd2, "OPTIONS": 0xd3}
+STATUSES = {200: 0xd9, 304: 0xda, 404: 0xdb, 503: 0xdc}
+# trailer sections the applications submit: one statically indexed field each (name=hexvalue)
+TRAILERS_TX = ["age=30", "accept-ranges=6279746573", "cache-control=6e6f2d6361636865", "cache-control=6e6f2d73746f7265",
+               "vary=6f726967696e", "vary=6163636570742d656e636f64696e67", "x-content-type-options=6e6f736e696666"]
+# frame types h3 does not know: reserved (0x1f * N + 0x21: 0x21, 0x40, 0x5f, 0x138) and unassigned ones; never 0x41 (WebTransport)
+UNKNOWN_TYPES = [0x21, 0x21, 0x40, 0x5f, 0x138, 0x0a, 0x0b, 0xff, 0x4000]
 
 # reset / stop codes: small numbers, every defined HTTP/3 error code (0x100 H3_NO_ERROR … 0x110), the QPACK codes, the largest varint
-CODES = [0, 7, 9] + list(range(0x100, 0x111)) + [0x200, 0x201, 0x202, 2**62 - 1]
+# (H3_NO_ERROR, the code RFC 9114 4.1 recommends for STOP_SENDING after a complete response, and H3_REQUEST_CANCELLED more often)
+CODES = [0, 7, 9] + list(range(0x100, 0x111)) + [0x200, 0x201, 0x202, 2**62 - 1] + [0x100] * 4 + [0x10c] * 2
+
+
+def pint(prefix_bits, flags, n):
+    """QPACK prefixed integer"""
+    lim = (1 << prefix_bits) - 1
+    if n < lim:
+        return [flags | n]
+    out = [flags | lim]
+    n -= lim
+    while n >= 128:
+        out.append(0x80 | (n & 0x7f))
+        n >>= 7
+    out.append(n)
+    return out
+
+
+def lit(name, value):
+    """literal field line with literal name, no Huffman"""
+    nb, vb = name.encode(), value.encode()
+    return pint(3, 0x20, len(nb)) + list(nb) + pint(7, 0x00, len(vb)) + list(vb)
+
+
+def nameref(idx, value):
+    """literal field line with static name reference (index < 15), no Huffman"""
+    vb = value.encode()
+    return pint(4, 0x50, idx) + pint(7, 0x00, len(vb)) + list(vb)
+
+
+def fsize(fields):
+    return sum(len(n) + len(v) + 32 for n, v in fields)
+
+
+def frame(ty, payload):
+    return varint(ty) + varint(len(payload)) + list(payload)
 
 
 class C07(Prop):
     id = "C07"
     thorough_rounds = 12   # thorough tier: this many independently seeded rounds of the random generators (duplicates dropped)
     modules = ["H3.Props.C07", "H3.Lemmas.GenAgreeReq", "H3.Lemmas.GenAgreeFrame", "H3.Lemmas.Iso", "H3.Lemmas.IsoLift",
-               "H3.Lemmas.IsoPolledFS", "H3.Lemmas.IsoPolledReq", "H3.Lemmas.IsoPolled"]
+               "H3.Lemmas.IsoPolledFS", "H3.Lemmas.IsoPolledReq", "H3.Lemmas.IsoPolled", "H3.Lemmas.IsoFault"]
     engines = ["iso"]
-    design_ref = "DESIGN.md section 7, C07"
+    design_ref = "DESIGN.md section 7, C07; section 12 'C07' (three paragraphs); reading R-07"
     level_text = ("Lean theorems over the product machine H3.Iso (any number of request machines = the C03 receive machine over the "
-                  "FrameStream model + a send half, sharing one error cell; the driver closes when it finds the cell filled; histories "
-                  "= arbitrary lists of per-stream peer events, per-stream API polls and driver polls, unbounded): "
+                  "FrameStream model + a send half with write credit, sharing one error cell; the driver closes when it finds the cell "
+                  "filled; histories = arbitrary lists of per-stream peer events, per-stream API polls and driver polls, unbounded): "
+                  "C07_documented_histories_are_stream_scoped + C07_documented_stream_never_told_connection_error (whole histories, "
+                  "hypothesis on the INPUT only - DocStream: every stream's transport events are non-empty chunks carrying a prefix of "
+                  "the bytes of a validly framed message U* H (U|D)* (H U*)?, or of unknown frames only, ended by nothing yet, by FIN "
+                  "on the message's last frame boundary, or by RESET with any code after ANY prefix; STOP_SENDING with any code and "
+                  "credit grants anywhere; the header oracle answers ok, malformed or over-the-limit, not a QPACK failure, for the head "
+                  "as a head and for the trailers as trailers; the application makes the documented calls - obeys, reading R-07: head "
+                  "polled until it answers, then recv_data call by call or as the body task, then recv_trailers, each polled again "
+                  "while Pending, NO receive call after one answered an error, send calls anywhere - => no call on any stream ever "
+                  "answers a connection-level error, i.e. the history IS StreamScoped), hence "
+                  "C07_connection_stays_open_documented and C07_neighbours_unaffected_documented with no hypothesis about the model's "
+                  "own run (proof: C02's CInv with the RESET admitted in the script, robust_next/robust_data, one lemma per call of the "
+                  "pattern, induction over the events: H3/Lemmas/IsoFault.lean); "
                   "C07_stream_fault_is_local (every stream-scoped fault transition - RESET with any code met at any point of the byte "
                   "stream by resolve/recv_response/recv_data/recv_trailers/the body loop, STOP_SENDING met by a send call, malformed "
-                  "head or trailers, oversized head (431 written/refused/stopped) or trailers, FIN before HEADERS on a server - "
+                  "head or trailers, oversized head (431 written/refused/stopped) or trailers, FIN before HEADERS on a server "
+                  "(H3_REQUEST_INCOMPLETE) and on a client (H3_MESSAGE_ERROR, repaired D-07a) - "
                   "answers RemoteTerminate{c} / H3_MESSAGE_ERROR / header-too-big / H3_REQUEST_INCOMPLETE, leaves the cell unchanged, "
                   "never calls close, touches no other stream), C07_fault_reaction (the reset/stop codes h3 sends, the 431 on that "
                   "stream only), C07_only_connection_errors_write_cell, C07_neighbours_unaffected (in every history in which no stream "
@@ -58,186 +103,252 @@ class C07(Prop):
     level_note = ("remaining hypotheses of the healthy-stream theorems (all decidable statements about the stream's own bytes or the "
                   "oracle): chunks non-empty, no DATA frame of usize::MAX bytes, the header oracle accepts the head block and the "
                   "trailer block within the limit, the loop bound of a body poll exceeds the number of frame-layer tokens; the "
-                  "application follows the documented pattern (follows, decidable) and makes no send calls in between (send half "
-                  "is independent of the receive half in the model). "
+                  "application follows the documented pattern (follows, decidable; R-07: the pattern ends with the first error "
+                  "a receive call answers). "
                   "trusted: Lean kernel + 3 axioms; the request machine, FrameStream and error-cell models (tied by the C02/C03/C05 runs) "
                   "and the product H3.Iso, whose prediction for every scenario line is compared with the real h3 endpoint by this run "
                   "(model half of the driver = H3.Iso run on the line); header validity/size is an oracle parameter (C10/C11/C12); "
-                  "granularity = one poll of one task or one transport event, write credit unlimited (C14), grease frame off; real "
+                  "granularity = one poll of one task or one transport event; write back-pressure = a byte credit per stream (the "
+                  "431 answer of an oversized request is written without it), grease frame off; real "
                   "scheduling and timing are not modelled. SimQuic scenario runs with 2..4 concurrent requests, any subset faulted, "
                   "random interleavings and executor orders")
-    rule = ("2..4 concurrent requests on one connection, both roles; each healthy (own random body in random chunks) or "
-            "faulted by RESET with an arbitrary code at a random byte offset, STOP_SENDING, a validly encoded malformed head, an "
-            "oversized section, or FIN before HEADERS; ops of different streams interleaved at random, executor order seeds; "
-            "non-trivial = at least one healthy and one faulted stream in the scenario")
+    rule = ("2..4 concurrent requests on one connection, both roles; every request has its own head (method / path / status, a "
+            "marker header naming the stream), its own body cut into DATA frames (empty ones included) and random chunks, often its "
+            "own trailers, and frames of unknown / reserved types (with payload, cut across deliveries) before the HEADERS, between "
+            "the body frames, before and after the trailers; each is healthy or suffers ONE fault: RESET with an arbitrary code at a "
+            "random byte offset, STOP_SENDING, a validly encoded malformed head or trailer section, an oversized head or trailer "
+            "section, FIN before HEADERS (bare or behind unknown frames); the application's calls (head, then rm or rb+rt; "
+            "send_response / send_data / send_trailers / finish) are placed before, between and after the deliveries and the fault "
+            "(early / late / random merge per stream); a third of the scenarios run under write back-pressure (wc=32..64, credit "
+            "granted in pieces); ops of different streams interleaved at random, executor order seeds; head results, trailers and "
+            "the bytes written are compared in full; non-trivial = at least one healthy and one faulted stream in the scenario")
     trusted = ["the decision tables of the request receive path (H3.Gen.ReqArms, FirstFrame, FrameErrCodes, FrameDispatch) are re-read from the sources on this run and the request machine of H3.Iso is proved to follow them (H3.Lemmas.GenAgreeReq/GenAgreeFrame, rebuilt on this run)"]
-    assumptions = ["a RESET may discard data the application had not read yet (QUIC); only the error kind is compared on a faulted stream",
-                   "FIN before HEADERS is stream-scoped on a server only (a client treats it as an invalid frame sequence, R-03)"]
+    assumptions = ["a RESET may discard data the application had not read yet (QUIC); the specification fixes only the error kind on a faulted stream (the model predicts every answer on SimQuic, which keeps the data before the reset)",
+                   "R-07: the documented receive pattern of a request ends with the first error one of its receive calls answers (cfg rxhalt=1: later receive calls are not made); send calls on the same request go on",
+                   "the code a client reports for a response stream that ends before HEADERS is H3_MESSAGE_ERROR (RFC 9114 4.1.2, R-07)"]
+
+    # ------------------------------------------------------------------ projection
 
     def project(self, line, impl):
         if " | " not in impl:
             return impl
         trace, summ = impl.split(" | ", 1)
-        role = line.split()[1]
+        w = line.split()
+        role, ops = w[1], w[3:]
         per = {}
         driver = "ok"
         for t in trace.split():
             m = re.match(r"^q(\d+)s?\.(\w+)=(.*)$", t)
             if m:
-                per.setdefault(int(m.group(1)), []).append((m.group(2), m.group(3)))
+                r = re.sub(r"err:toobig:\d+:\d+", "err:toobig", m.group(3))
+                per.setdefault(int(m.group(1)), []).append((m.group(2), r))
                 continue
             m = re.match(r"^(conn\.A|drv\.W)=(.*)$", t)
             if m and m.group(2).startswith("err"):
-                driver = m.group(2)
+                driver = "err"
         tx = {}
         for m in re.finditer(r"(\d+):tx=([0-9a-f-]+)((?:,\w+(?:=\d+)?)*)", summ):
             tx[int(m.group(1))] = (m.group(2), m.group(3))
-        # which streams does the LINE fault? (the projection must not depend on the outcome)
-        ops = line.split()[3:]
-        faulted = set()
-        rx = {}
-        for op in ops:
-            m = re.match(r"^[rx](\d+):", op)
-            if m:
-                faulted.add(int(m.group(1)))
-            m = re.match(r"^s(\d+):([0-9a-f]+)$", op)
-            if m:
-                rx.setdefault(int(m.group(1)), "")
-                rx[int(m.group(1))] += m.group(2)
-            m = re.match(r"^f(\d+)$", op)
-            if m and int(m.group(1)) % 4 == 0 and int(m.group(1)) not in rx and role == "server":
-                faulted.add(int(m.group(1)))
-        good = GOOD_REQ if role == "server" else GOOD_RESP
-        sids = sorted({s for s in list(per) + list(rx) if s % 4 == 0})
-        over = "014056" if role == "server" else "014084"
-        for sid in sids:
-            if sid in rx and (rx[sid].startswith(BAD_HEAD) or rx[sid].startswith(over)):
-                faulted.add(sid)
+        # the request streams of the LINE (the projection must not depend on the outcome)
+        if role == "server":
+            sids = sorted({int(o[1:]) for o in ops if re.match(r"^o\d+$", o) and int(o[1:]) % 4 == 0})
+        else:
+            sids = [4 * i for i in range(sum(1 for o in ops if o.startswith("snd.R")))]
         out = []
         for sid in sids:
             res = per.get(sid, [])
-            if sid in faulted:
-                errs, conn = set(), 0
-                for op, r in res:
-                    if r.startswith("err:conn") or ":err:conn" in r:
-                        conn = 1
-                    m = re.search(r"err:(rterm:\d+|stream:\w+|toobig|rclosing|undefined)", r)
-                    if m and "err:conn" not in r:
-                        errs.add(m.group(1))
-                out.append("q%d:fault:[%s]:conn=%d" % (sid, ",".join(sorted(errs)), conn))
-                # what h3 itself put on the faulted stream (bytes, FIN, RESET_STREAM / STOP_SENDING codes): compared with
-                # the model only (the specification has no opinion: `*`)
-                t, flags = tx.get(sid, ("-", ""))
-                out.append("q%d:wire:tx=%s%s" % (sid, t, "".join("," + f for f in flags.split(",") if f and f != "writing")))
-            else:
-                head = [("%s=%s" % (op, "ok" if r.startswith("ok") else r)) for op, r in res if op in ("res", "rr")]
-                rm = ["rm=%s" % r for op, r in res if op == "rm"]
-                others = ["%s=%s" % (op, r) for op, r in res if op not in ("res", "rr", "rm")]
-                t, flags = tx.get(sid, ("-", ""))
-                fin = ",fin" if ",fin" in flags else ""
-                extra = "".join(f for f in flags.split(",") if f and f != "fin" and f != "writing")
-                out.append("q%d:%s;tx=%s%s%s" % (sid, ",".join(head + rm + others), t, fin, ("," + extra) if extra else ""))
+            errs, conn = set(), 0
+            for op, r in res:
+                if "err:conn" in r:
+                    conn = 1
+                    continue
+                m = re.search(r"err:(rterm:\d+|stream:\w+|toobig|rclosing|undefined|other)", r)
+                if m:
+                    errs.add(m.group(1))
+            out.append("q%d:E[%s]:conn=%d" % (sid, ",".join(sorted(errs)), conn))
+            t, flags = tx.get(sid, ("-", ""))
+            fl = "".join("," + f for f in flags.split(",") if f and f != "writing")
+            out.append("q%d:%s;tx=%s%s" % (sid, ",".join("%s=%s" % x for x in res), t, fl))
         m = re.search(r"closed=\[([^\]]*)\]", summ)
         out.append("closed=[%s]" % (m.group(1) if m else "?"))
         out.append("driver=%s" % driver)
         return " ".join(out)
 
     def klass_raw(self, line, raw):
-        ops = line.split()[3:]
+        w = line.split()
+        ops = w[3:]
         kinds = []
         if any(re.match(r"^r\d+:", o) for o in ops):
             kinds.append("reset")
         if any(re.match(r"^x\d+:", o) for o in ops):
             kinds.append("stop")
-        if BAD_HEAD in line:
-            kinds.append("malformed")
-        if "mfs=" in line.split()[2]:
-            kinds.append("oversized")
+        for k in ("stream:H3_MESSAGE_ERROR", "stream:H3_REQUEST_INCOMPLETE", "toobig"):
+            if "err:" + k in raw:
+                kinds.append(k.split(":")[-1])
         n = len({m.group(1) for o in ops for m in [re.match(r"^o(\d+)$", o)] if m and int(m.group(1)) % 4 == 0}) or len(re.findall(r"snd\.R", line))
-        return "%s streams=%d faults=%s closed=%s" % (line.split()[1], n, "+".join(kinds) or "none", re.search(r"closed=\[[^\]]*\]", raw).group(0) if "closed=" in raw else "?")
+        return "%s streams=%d wc=%d tr=%d faults=%s closed=%s" % (
+            w[1], n, int("wc=" in w[2]), int("trailers:" in raw), "+".join(kinds) or "none",
+            re.search(r"closed=\[[^\]]*\]", raw).group(0) if "closed=" in raw else "?")
 
     def trivial_raw(self, line, raw):
-        return "fault" not in self.project(line, raw) or ";tx=" not in self.project(line, raw)
+        p = self.project(line, raw).split()
+        es = [t for t in p if re.match(r"^q\d+:E\[", t)]
+        return not (any("E[]" in t for t in es) and any("E[]" not in t for t in es))
 
-    def chunks(self, sid, hexs, rng):
-        b = bytes.fromhex(hexs)
+    # ------------------------------------------------------------------ generator
+
+    def chunks(self, sid, data, rng):
         out, i = [], 0
-        while i < len(b):
-            k = rng.choice([1, 2, 3, 7, 20, len(b)])
-            out.append("s%d:%s" % (sid, b[i:i + k].hex()))
+        sizes = rng.choice([[1, 2, 3, 7, 20, len(data)], [1, 2, 3], [5, 11, 40], [len(data)]])
+        while i < len(data):
+            k = max(1, rng.choice(sizes))
+            out.append("s%d:%s" % (sid, hx(data[i:i + k])))
             i += k
         return out
+
+    def unknown(self, rng, n=None):
+        """frames of unknown / reserved types with payload"""
+        out = []
+        for _ in range(n if n is not None else rng.choice([1, 1, 2])):
+            ln = rng.choice([0, 0, 1, 5, 30, 40])
+            out += frame(rng.choice(UNKNOWN_TYPES), [rng.getrandbits(8) for _ in range(ln)])
+        return out
+
+    def head_fields(self, server, sid, rng):
+        if server:
+            m = rng.choice(sorted(METHODS))
+            return [(":method", m), (":scheme", "https"), (":authority", "a.b"), (":path", "/s%d" % sid), ("x-id", "%d" % sid)]
+        return [(":status", "%d" % rng.choice(sorted(STATUSES))), ("x-id", "%d" % sid)]
+
+    def encode(self, fields):
+        out = [0, 0]
+        for n, v in fields:
+            if n == ":method":
+                out.append(METHODS[v])
+            elif n == ":scheme":
+                out.append(0xd7)
+            elif n == ":authority":
+                out += nameref(0, v)
+            elif n == ":path":
+                out += nameref(1, v)
+            elif n == ":status":
+                out.append(STATUSES[int(v)])
+            else:
+                out += lit(n, v)
+        return out
+
+    def section(self, fields, kind, mfs):
+        """kind: good | malformed (upper-case field name, RFC 9114 4.2) | oversized (over mfs)"""
+        fields = list(fields)
+        if kind == "malformed":
+            fields.append(("X-A", "v"))
+        if kind == "oversized":
+            fields.append(("x", "v" * (mfs - fsize(fields) + 9)))
+        return self.encode(fields)
+
+    def merge(self, rng, seqs):
+        seqs = [list(s) for s in seqs if s]
+        out = []
+        while any(seqs):
+            s = rng.choice([q for q in seqs if q])
+            out.append(s.pop(0))
+        return out
+
+    def stream_plan(self, rng, server, sid, kind, mfs, wc):
+        """ops of one request: deliveries D, receive calls R, send calls S, the STOP_SENDING, credit grants"""
+        body = [rng.getrandbits(8) for _ in range(rng.choice([0, 1, 5, 30, 70]))]
+        wire = []
+        if kind == "finfirst":
+            # abandoned before its headers: bare FIN, or FIN behind unknown frames (a long one, then often a short one)
+            if rng.random() < 0.6:
+                wire = frame(rng.choice(UNKNOWN_TYPES), [rng.getrandbits(8) for _ in range(rng.choice([3, 30, 40]))])
+                if rng.random() < 0.7:
+                    wire += frame(rng.choice(UNKNOWN_TYPES), [rng.getrandbits(8) for _ in range(rng.choice([0, 0, 2]))])
+        else:
+            if rng.random() < 0.35:
+                wire += self.unknown(rng)
+            hk = kind if kind in ("malformed", "oversized") else "good"
+            wire += frame(1, self.section(self.head_fields(server, sid, rng), hk, mfs))
+            pos = 0
+            while pos < len(body) or (pos == 0 and rng.random() < 0.5):
+                if rng.random() < 0.25:
+                    wire += self.unknown(rng, 1)
+                n = min(rng.choice([0, 1, 3, len(body) - pos]), len(body) - pos) if pos < len(body) else 0
+                wire += frame(0, body[pos:pos + n])
+                pos += n
+                if n == 0 and pos >= len(body):
+                    break
+            if rng.random() < 0.25:
+                wire += self.unknown(rng, 1)
+            tk = {"badtrailers": "malformed", "bigtrailers": "oversized"}.get(kind)
+            if tk or (kind in ("none", "stop", "reset") and rng.random() < 0.45):
+                wire += frame(1, self.section([("x-t", "%d" % sid)] + ([("x-u", "t")] if rng.random() < 0.3 else []), tk or "good", mfs))
+                if rng.random() < 0.3:
+                    wire += self.unknown(rng, 1)
+        opener = ["o%d" % sid] if server else []
+        if kind == "reset":
+            cut = rng.randrange(0, len(wire))       # any byte offset; the message is never complete
+            D = self.chunks(sid, wire[:cut], rng) + ["r%d:%d" % (sid, rng.choice(CODES))]
+        else:
+            D = self.chunks(sid, wire, rng) + ["f%d" % sid]
+        R = ["q%d.%s" % (sid, "res" if server else "rr")] + (["q%d.rm" % sid] if rng.random() < 0.6 else ["q%d.rb" % sid, "q%d.rt" % sid])
+        S = []
+        if server:
+            S.append("q%d.sr:%d:-" % (sid, rng.choice(sorted(STATUSES))))
+        for _ in range(rng.choice([0, 1, 1, 2, 3])):
+            S.append("q%d.sd:%s" % (sid, bytes(rng.getrandbits(8) for _ in range(rng.choice([0, 1, 4, 40, 90]))).hex() or "-"))
+        if rng.random() < 0.4:
+            S.append("q%d.st:%s" % (sid, rng.choice(TRAILERS_TX)))
+        S.append("q%d.fi" % sid)
+        X = ["x%d:%d" % (sid, rng.choice(CODES))] if kind == "stop" else []
+        G = ["gw%d:%d" % (sid, rng.choice([1, 3, 7, 20])) for _ in range(rng.choice([0, 1, 2, 4]))] if wc else []
+        # where the calls stand relative to the deliveries and to the fault: all before, all after, anywhere
+        mode = rng.choice(["early", "late", "mixed", "mixed"])
+        if mode == "early":
+            base = R + D
+        elif mode == "late":
+            base = D + R
+        else:
+            base = self.merge(rng, [D, R])
+        ops = self.merge(rng, [base, S, X, G])
+        if server:
+            # the request task understands send commands only once `res` has been posted
+            head = R[0]
+            first_s = min(ops.index(o) for o in S)
+            if ops.index(head) > first_s:
+                ops.remove(head)
+                ops.insert(first_s, head)
+        return opener + ops
 
     def one_case(self, rng, role):
         server = role == "server"
         k = rng.choice([2, 2, 3, 4])
         use_over = rng.random() < 0.3
-        cfg = "g0,seed=%d" % rng.randrange(1, 10000) + (",mfs=200" if use_over else "")
-        good = GOOD_REQ if server else GOOD_RESP
-        kinds = ["none", "reset", "stop", "malformed"] + (["oversized"] if use_over else []) + (["finfirst"] if server else [])
-        plans = []
-        pre = ["conn.AL", "o2", "s2:000400"] if server else ["drv.W", "o3", "s3:000400"]
+        mfs = 400
+        kinds = ["none", "reset", "stop", "malformed", "finfirst", "badtrailers"] + (["oversized", "bigtrailers"] if use_over else [])
         chosen = [rng.choice(kinds) for _ in range(k)]
         if all(c != "none" for c in chosen):
             chosen[rng.randrange(k)] = "none"
         if all(c == "none" for c in chosen):
             chosen[rng.randrange(k)] = rng.choice(kinds[1:])
-        for i in range(k):
-            sid = 4 * i
-            kind = chosen[i]
-            ops = []
-            body = [rng.getrandbits(8) for _ in range(rng.choice([0, 1, 5, 30]))]
-            frames = ""
-            pos = 0
-            while pos < len(body) or (pos == 0 and rng.random() < 0.5):
-                n = min(rng.choice([0, 1, 3, len(body) - pos]), len(body) - pos) if pos < len(body) else 0
-                frames += hx([0x00] + varint(n) + body[pos:pos + n])
-                pos += n
-                if n == 0 and pos >= len(body):
-                    break
-            head = good
-            if kind == "malformed":
-                head = BAD_HEAD
-            if kind == "oversized":
-                head = oversized_head(good[4:], 70 if server else 126)
-            wire = head + frames
-            opener = ["o%d" % sid] if server else []
-            recv_head = "q%d.res" % sid if server else "q%d.rr" % sid
-            reply = bytes(rng.getrandbits(8) for _ in range(rng.choice([0, 1, 4, 40]))).hex() or "-"
-            if server:
-                send = ["q%d.sr:200" % sid, "q%d.sd:%s" % (sid, reply), "q%d.fi" % sid]
-            else:
-                send = ["q%d.sd:%s" % (sid, reply), "q%d.fi" % sid]
-            if kind == "finfirst":
-                ops = opener + ["f%d" % sid, recv_head]
-            elif kind == "reset":
-                cut = rng.randrange(0, len(wire) // 2 + 1) * 2
-                code = rng.choice(CODES)
-                ops = opener + (self.chunks(sid, wire[:cut], rng) if cut else []) + [recv_head, "q%d.rm" % sid, "r%d:%d" % (sid, code)] + send
-            elif kind == "stop":
-                code = rng.choice(CODES)
-                ops = opener + ["x%d:%d" % (sid, code)] + self.chunks(sid, wire, rng) + ["f%d" % sid, recv_head, "q%d.rm" % sid] + send
-            else:
-                ops = opener + self.chunks(sid, wire, rng) + ["f%d" % sid, recv_head, "q%d.rm" % sid] + send
-                # app may send before it receives
-                if rng.random() < 0.3 and kind == "none" and not server:
-                    ops = opener + send + self.chunks(sid, wire, rng) + ["f%d" % sid, recv_head, "q%d.rm" % sid]
-            plans.append(ops)
-        # client: requests are created first, in order (stream ids follow creation order)
+        # write back-pressure (the 431 answer of an oversized request is not modelled under it)
+        wc = rng.choice([32, 48, 64]) if rng.random() < 0.33 and not (server and "oversized" in chosen) else 0
+        cfg = "g0,seed=%d,rxhalt=1" % rng.randrange(1, 10000) + (",mfs=%d" % mfs if use_over else "") + (",wc=%d" % wc if wc else "")
+        pre = ["conn.AL", "o2", "s2:000400"] if server else ["drv.W", "o3", "s3:000400"]
+        plans = [self.stream_plan(rng, server, 4 * i, chosen[i], mfs, wc) for i in range(k)]
         merged = list(pre)
         if not server:
+            # requests are created first, in order (stream ids follow creation order), each with its own method
             for i in range(k):
-                merged.append("snd.R:GET:%s:-" % URI)
-        seqs = [list(p) for p in plans]
-        while any(seqs):
-            s = rng.choice([q for q in seqs if q])
-            merged.append(s.pop(0))
+                merged.append("snd.R:%s:%s:-" % (rng.choice(sorted(METHODS)), URI))
+        merged += self.merge(rng, plans)
         # client: a request started AFTER the faults have been reported must be as healthy as any other
         if not server and rng.random() < 0.6:
-            sid = 4 * k
-            body = [rng.getrandbits(8) for _ in range(rng.choice([0, 3, 17]))]
-            wire = good + (hx([0x00] + varint(len(body)) + body) if body else "")
-            merged += ["snd.R:GET:%s:-" % URI] + self.chunks(sid, wire, rng) + ["f%d" % sid, "q%d.rr" % sid, "q%d.rm" % sid, "q%d.fi" % sid]
+            merged.append("snd.R:%s:%s:-" % (rng.choice(sorted(METHODS)), URI))
+            merged += self.stream_plan(rng, server, 4 * k, "none", mfs, wc)
+            k += 1
+        if wc:
+            merged += ["gw%d:100000" % (4 * i) for i in range(k)]
         return "iso %s %s %s" % (role, cfg, " ".join(merged))
 
     def cases(self, tier, rng):
@@ -249,10 +360,29 @@ class C07(Prop):
         w = line.split()
         ops = w[3:]
         out = []
+        server = w[1] == "server"
+
+        def sid_of(o):
+            m = re.match(r"^(?:q|s|f|r|x|o|gw)(\d+)(?:[.:]|$)", o)
+            return int(m.group(1)) if m else None
+        sids = sorted({sid_of(o) for o in ops if sid_of(o) is not None and sid_of(o) % 4 == 0})
+        # a whole request at once (client: only the last one, the stream ids follow the creation order)
+        for sid in (sids if server else sids[-1:]):
+            rest = [o for o in ops if sid_of(o) != sid]
+            if not server:
+                idx = [i for i, o in enumerate(rest) if o.startswith("snd.R")]
+                if len(idx) == len(sids):
+                    del rest[idx[-1]]
+            out.append(" ".join(w[:3] + rest))
         for i in range(len(ops)):
-            if ops[i] in ("conn.AL", "drv.W", "o2", "o3", "s2:000400", "s3:000400"):
+            if ops[i] in ("conn.AL", "drv.W", "o2", "o3", "s2:000400", "s3:000400") or ops[i].startswith("snd.R") or re.match(r"^o\d+$", ops[i]):
                 continue
             out.append(" ".join(w[:3] + ops[:i] + ops[i + 1:]))
+        # two adjacent deliveries of one stream into one
+        for i in range(len(ops) - 1):
+            a, b = re.match(r"^s(\d+):([0-9a-f]+)$", ops[i]), re.match(r"^s(\d+):([0-9a-f]+)$", ops[i + 1])
+            if a and b and a.group(1) == b.group(1):
+                out.append(" ".join(w[:3] + ops[:i] + ["s%s:%s%s" % (a.group(1), a.group(2), b.group(2))] + ops[i + 2:]))
         return out
 
 
